@@ -88,9 +88,11 @@ def listing(g, n, decorate=True):
         l, nb = inst_line(g, addr)
         lines.append(l)
         addr += nb
-        if decorate and g.chance(0.1):
-            lines.append({"k": "cont", "indent": 2, "addr": "%x" % addr, "bytes": "".join("%02x" % g.int(0, 255) for _ in range(g.int(1, 3)))})
-            addr += 1
+        if decorate and g.chance(0.12):
+            # the bytes of a long instruction wrap onto one, two or three continuation lines (--insn-width, 15-byte instructions)
+            for _k in range(g.pick([1, 1, 2, 2, 3])):
+                lines.append({"k": "cont", "indent": 2, "addr": "%x" % addr, "bytes": "".join("%02x" % g.int(0, 255) for _ in range(g.int(1, 3)))})
+                addr += 1
         if decorate and g.chance(0.07):
             lines += [{"k": "blank"}, {"k": "label", "addr": "%016x" % addr, "name": g.pick(["g", "h", "k.part.0", "operator+(a const&)", "_ZN3FooC1Ev", "x y", "f@plt"])}]
         if decorate and g.chance(0.03):
@@ -134,8 +136,9 @@ def presentation_edit(g, lines):
         if g.chance(0.1):
             out.append({"k": "blank"})
         out.append(l)
-        if g.chance(0.1):
-            out.append({"k": "cont", "indent": l["indent"], "addr": "%x" % (int(l["addr"], 16) + 1), "bytes": "00"})
+        if g.chance(0.12):
+            for _k in range(g.pick([1, 2, 3])):
+                out.append({"k": "cont", "indent": l["indent"], "addr": "%x" % (int(l["addr"], 16) + 1 + _k), "bytes": "00"})
     if g.chance(0.5):
         out = [{"k": "header", "name": "b.o", "format": "elf32-i386"}, {"k": "sect", "name": ".init"}] + out
     return out
